@@ -262,6 +262,10 @@ def c10():
     ]
     obs.append(ob("c10::body_inputs_roundtrip_v2_v3", "t", 8, "[thorough-tier ATTEMPT: 660 s / 13 GB not enough] TransactionBody with two features-and-commit inputs decodes from its own encoding at v1/v2 (34-byte inputs) and v3/local (commitments only, re-sorted for the v3 reader); inputs compared by commitment",
                   "2 inputs with symbolic commitments and features, no outputs / kernels, versions {1,2,3,1000}", est=3000, cap_s=3600, loops={"memcmp": 70, "memcpy": 100, "zeroize": 36}))
+    for no, nk, ni, tiers in [(1, 0, 0, "qt"), (0, 1, 0, "qt"), (0, 0, 1, "qt"), (1, 1, 1, "t"), (1, 0, 1, "t")]:
+        obs.append(ob("c10c::compact_block_body_roundtrip", tiers, 8, "CompactBlockBody decodes from its own encoding to an equal value at every protocol version: counts written and read in the same order, every list read with its own count",
+                      "%d full outputs (empty range proofs) / %d full kernels / %d short ids, contents symbolic, versions {1,2,3,1000}" % (no, nk, ni),
+                      env={"VH_NOUT": no, "VH_NK": nk, "VH_NIDS": ni}, tag="_%d_%d_%d" % (no, nk, ni), est=200, loops={"memcmp": 120, "memcpy": 700, "memset": 700, "read_empty_bytes": 18, "copy_from_slice": 700, "extend_desugared": 3, "IteratingReader": 3}, unwindset={}))
     for h, L, what in [
         ("ping_canonical", 16, "p2p Ping"), ("pong_canonical", 16, "p2p Pong"), ("ban_reason_canonical", 4, "p2p BanReason"),
 ("txhashset_request_canonical", 40, "p2p TxHashSetRequest"),
@@ -292,6 +296,8 @@ def c12():
         ob("c12::cut_through_2_1", "qt", 6, "same", "2 inputs + 1 output", est=420, unwindset={"memcmp.0": 40}, allow_unsat=["two pairs cut"], mem_est_gb=12),
         ob("c12::cut_through_2_2", "t", 6, "same", "2 inputs + 2 outputs", est=700, cap_s=3600, unwindset={"memcmp.0": 40}, mem_est_gb=14),
         ob("c12::cut_through_err_iff_duplicate_2_2", "qt", 6, "Err(CutThrough) iff a duplicate survives", "2 + 2", est=500, cap_s=750, unwindset={"memcmp.0": 40}, mem_est_gb=13),
+        ob("c12::aggregate_two_independent", "x", 6, "[ATTEMPT: did not finish in 3600 s] aggregate([a, b]) of two transactions that do not spend each other: kernels = union, inputs = union, offset = sum of offsets (model scalar group), independent of operand order",
+           "two 1-input / 0-output / 1-kernel transactions with symbolic commitments, excesses, fees and offsets", est=900, cap_s=3600, loops={"memcmp": 70, "zeroize": 36, "memcpy": 120}, replay="model", mem_est_gb=14),
         ob("c12::cut_through_3_3", "t", 8, "same", "3 inputs + 3 outputs", est=3000, cap_s=5400, unwindset={"memcmp.0": 40}, mem_est_gb=20),
     ]
     return {
@@ -316,7 +322,7 @@ def c01():
            "1 input / 2 outputs / 1 kernel; every commitment any model element; |overage| < 2^40; any offset", est=200, loops=L, replay="model"),
     ]
     obs.append(ob("c01::block_coinbase_sum", "qt", 5, "Block::verify_coinbase == Ok <=> sum(coinbase outputs) - (REWARD + fees) == sum(coinbase kernels)",
-                  "1 input / 2 outputs / 2 kernels with symbolic coinbase flags, commitments and fee < 2^40", est=300, loops=L, replay="model", mem_est_gb=8))
+                  "1 input / 2 outputs / 2 kernels with symbolic coinbase flags, commitments, fee < 2^40 and fee shift < 16", est=300, loops=L, replay="model", mem_est_gb=8))
     obs.append(ob("c01::header_overage_arithmetic", "qt", 5, "BlockHeader::overage = -REWARD; total_overage = -(height [+1]) * REWARD; consensus::reward = REWARD + fees (saturating); REWARD = 60 grin",
                   "height < 2^27 (the i64 product overflows near 1.5e8 blocks), any fee", est=30, loops=L))
     for (ni, no, nk, tiers) in [(1, 0, 1, "qt"), (0, 1, 1, "qt"), (1, 1, 2, "qt"), (2, 2, 2, "t")]:
@@ -427,6 +433,11 @@ def c16():
                       "Segment::from_pmmr exists iff its first leaf is inside the mmr; what it produces validates against the root (validate) and under a merged root (validate_with)",
                       "%d leaves (symbolic contents), segment height %d index %d, non-prunable" % (n, h, idx),
                       env={"VH_NLEAF": n, "VH_SEGH": h, "VH_SEGIDX": idx}, tag="_n%d_h%d_i%d" % (n, h, idx), est=300, loops=HL, allow_unsat=["segment produced"] if idx * (1 << h) >= n else []))
+    for n, h, idx, tiers in [(4, 1, 0, "qt"), (4, 1, 1, "qt"), (3, 1, 1, "qt"), (4, 0, 2, "t"), (5, 1, 1, "t"), (7, 1, 2, "t")]:
+        obs.append(ob("c16::segment_prunable_uncompacted_complete", tiers, 8,
+                      "prunable MMR, spent leaves pruned but not compacted: the segment from_pmmr(prunable) produces validates against the root under EVERY unspent bitmap (whole segment spent, sibling subtree spent too, partial, none)",
+                      "%d leaves (symbolic contents), segment height %d index %d, symbolic unspent bitmap over the leaves" % (n, h, idx),
+                      env={"VH_NLEAF": n, "VH_SEGH": h, "VH_SEGIDX": idx}, tag="_n%d_h%d_i%d" % (n, h, idx), est=400, loops=HL, mem_est_gb=10))
     for n, h, idx, tiers in [(2, 0, 0, "t"), (3, 1, 0, "t"), (3, 1, 1, "t")]:
         obs.append(ob("c16::segment_sound", tiers, 8,
                       "under the ideal hash: changing a leaf's data or position, a proof hash, dropping a leaf or proof hash, or the identifier makes validate fail  [thorough-tier ATTEMPT: did not finish in 30 min at 3 leaves]",
